@@ -31,6 +31,8 @@ func main() {
 		os.Exit(avahistepMain(os.Args[2:]))
 	case "hubstep":
 		os.Exit(hubstepMain(os.Args[2:]))
+	case "pairstep":
+		os.Exit(pairstepMain(os.Args[2:]))
 	case "racestress":
 		os.Exit(racestressMain(os.Args[2:]))
 	case "twohubs":
